@@ -640,6 +640,27 @@ func (gs *groupScen) checkFinalCommit(m *gmember, sr *sessRec) {
 	if sr.snapGen != sr.generation || !sr.snapMember {
 		return
 	}
+	// ... and the member held a connection to the coordinator that was established before Cleanup and stayed up
+	// until Consume returned: without one the final attempt fails inside the client (ErrNotConnected from the
+	// cached, closed Broker - e.g. after a reset shortly before, or when a late Broker.Close issued for an earlier
+	// failure hits the re-opened connection) and the coordinator never gets to accept it
+	gs.cl.mu.Lock()
+	conns := append([]*simConn(nil), m.dial.conns...)
+	gs.cl.mu.Unlock()
+	live := false
+	for _, c := range conns {
+		c.mu.Lock()
+		up := c.groupAPI && c.br != nil && c.br.id == gs.gm.coordinator && c.dialUs <= sr.cleanupUs &&
+			(c.clientCloseUs == 0 || c.clientCloseUs > sr.returnUs) && (c.serverCloseUs == 0 || c.serverCloseUs > sr.returnUs)
+		c.mu.Unlock()
+		if up {
+			live = true
+		}
+	}
+	if !live {
+		gs.r.probe("final-commit-due-without-a-live-coordinator-connection")
+		return
+	}
 	latest := map[string]*commitRec{}
 	for _, cr := range gs.gm.commits[:sr.snapCommits] {
 		if cr.member != sr.memberID {
